@@ -31,13 +31,16 @@ def _file_cls(**kw):
     return FileProcessTensor(mode="write", filename=None, **kw)
 
 
-def env_spec(kind, d, e, n, tag, transform, caps, file=False):
+def env_spec(kind, d, e, n, tag, transform, caps, file=False, scribble=False):
     """Returns dict(pt=..., kraus=lambda k: physical Kraus list, sigma=ancilla state)."""
     v = M.generic_unitary(d, 3 + tag) if transform else None
     if file:
         import functools
         orig = A.build_pt
         build = functools.partial(orig, cls=_file_cls)
+    elif scribble:
+        import functools
+        build = functools.partial(A.build_pt, scribble=True)
     else:
         build = A.build_pt
     sigma = anc_state(e, tag)
@@ -117,6 +120,17 @@ def control_spec(kind, d, n, start=0.0):
     elif kind == "post-late":
         ctrl.add_single(max(n - 1, 0), kick, post=True)
         post[max(n - 1, 0)] = kick
+    elif kind == "float-then-int":
+        # two non-commuting controls on one step: the first given by float time, the second by step number
+        kick2 = R.conj_super(M.generic_unitary(d, 4))
+        ctrl.add_single(float(start + (step + 0.2) * DT), kick, post=False)
+        ctrl.add_single(step, kick2, post=False)
+        pre[step] = kick2 @ kick
+    elif kind == "int-then-float":
+        kick2 = R.conj_super(M.generic_unitary(d, 4))
+        ctrl.add_single(step, kick, post=False)
+        ctrl.add_single(float(start + (step - 0.2) * DT), kick2, post=False)
+        pre[step] = kick2 @ kick
     elif kind == "pre+post":
         kick2 = R.conj_super(M.generic_unitary(d, 4))
         ctrl.add_single(step, kick, post=False)
@@ -129,7 +143,8 @@ def control_spec(kind, d, n, start=0.0):
 def run_case(case):
     """case: dict(d, n, envs=[(kind,e,tag,transform,caps)...], system, control, start, num_steps, subdiv)"""
     d, n = case["d"], case["n"]
-    envs = [env_spec(k, d, e, n, tag, tr, caps, file=bool(case.get("file"))) for (k, e, tag, tr, caps) in case["envs"]]
+    envs = [env_spec(k, d, e, n, tag, tr, caps, file=bool(case.get("file")), scribble=bool(case.get("scribble")))
+            for (k, e, tag, tr, caps) in case["envs"]]
     start = case.get("start", 0.0)
     sysm, props = system_spec(case["system"], d, start)
     ns = case.get("num_steps") or n
@@ -203,6 +218,12 @@ def cases_single(tier):
         if ck in ("post-late", "pre+post"):
             out.append({"fam": "single", "d": d, "n": n, "envs": [(kind, e, 1, True, "explicit")], "system": sysk,
                         "control": ck})
+    # process tensors built by a caller that re-uses one work buffer per tensor shape and overwrites it afterwards;
+    # stacked controls whose times are given in mixed ways
+    for (d, e), n, kind, caps, ck in itertools.product([(2, 3), (3, 2)], [2, 4], ["unitary", "rank3", "cptp"],
+                                                       ["explicit", "computed"], ["pre", "float-then-int", "int-then-float"]):
+        out.append({"fam": "work-buffers", "d": d, "n": n, "envs": [(kind, e, 1, True, caps)], "system": "H",
+                    "control": ck, "scribble": True})
     # the initial state handed over in other memory layouts (same values)
     for (d, e), kind, sysk, lay in itertools.product([(2, 3), (3, 2)], ["unitary", "rank3", "cptp"], ["zero", "H(t)"],
                                                      ["F", "T-view", "strided"]):
